@@ -10,11 +10,14 @@ Decided:
          (``tb_str.splitlines()[-1]``) likewise; both page routes ('/' and the catch-all '/<..*>') use the same
          endpoint and template; the resource names given to Application are exactly the endpoint's parameters (so
          the bind-time check of C01 holds for the failsafe itself); the template name rendered is the one
-         registered; the static asset application is non-breaking and the catch-all is the last route; nothing
-         removes entries from the caller's monitored-file list;
+         registered; the static asset application is non-breaking (its closures and helpers included) and the
+         catch-all is the last route; the page routes answer every method and the Application is configured with
+         nothing else (slash mode, middlewares, error handler at their defaults); create_app touches its inputs only
+         where that cannot stop the construction; nothing removes entries from the caller's monitored-file list; the
+         text / file list shown are the ones create_app was given;
   R20.c  every reference of the registered template is HTML-escaped under ashes' filter semantics (no |s, no esc
-         pragma), and nothing in clastic switches autoescaping off; the endpoint supplies what the template reads
-         and the text / file list shown are the ones create_app was given;
+         pragma, stock filters on the render factory), and nothing in clastic switches autoescaping off; the endpoint
+         supplies what the template reads; the error text and the full file list are rendered unconditionally;
   R20.d  the parsed branch is reachable: from_string has a normal return path that does not depend on an
          unbound name (follows from R20.a), constructs cls(<type>, <message>, ...) from the two sides of the
          ``partition(':')`` of the exception line, and to_dict exports the keys the template's {#parsed_err} block
@@ -23,13 +26,16 @@ Decided:
          understands a side-effect free subset of Python; outside it this part is declined, never guessed).
   R20.e  the launcher (server.py) builds the failsafe from what it collected: the function calling flaw.create_app
          passes its own (error text, file list) parameters in that order, and the list restart_with_reloader hands to
-         the error hook is filled *in place* from the child's report -- no nested function or helper rebinds it as a
-         local of its own.
+         the error hook is created once, outside the restart loop, and filled *in place* from the child's report -- no
+         nested function, helper or pump object rebinds it as a name / attribute of its own (located by role; declined
+         with a note where the hand-over cannot be followed).
 Declined: "answers 200 for every text" over non-text inputs; traceback grammars beyond the evaluated samples.
 
 The constructs are located by role: the Application(...) call create_app returns, its routes / resources /
-render_factory arguments followed through single-assignment locals, module-level constants and straight-line list
-building; the endpoint is whatever function the page routes name; the template is whatever source is registered.
+render_factory arguments followed through single-assignment locals, module-level constants, expression functions,
+builder functions (public call-only helpers are dissolved into their callers like the loader does for private ones),
+straight-line list / dict building and unpacking; the endpoint is whatever function the page routes name; the template
+is whatever source is registered; lambdas and nested functions are judged where they run.
 """
 import ast
 
@@ -307,9 +313,13 @@ def _seq_elements(fi, expr, what, depth=0):
     if depth > 5:
         raise AnalysisError('%s: construction too deep to follow' % what)
     if isinstance(expr, (ast.List, ast.Tuple)):
-        if any(isinstance(e, ast.Starred) for e in expr.elts):
-            raise AnalysisError('%s: starred element in %s' % (what, short(expr)))
-        return list(expr.elts)
+        out = []
+        for e in expr.elts:
+            if isinstance(e, ast.Starred):
+                out.extend(_seq_elements(fi, e.value, what, depth + 1))      # [*pages, assets]
+            else:
+                out.append(e)
+        return out
     if isinstance(expr, ast.BinOp) and isinstance(expr.op, ast.Add):
         return _seq_elements(fi, expr.left, what, depth + 1) + _seq_elements(fi, expr.right, what, depth + 1)
     if isinstance(expr, ast.Call) and call_name(expr) in ('list', 'tuple') and len(expr.args) == 1 and not expr.keywords:
@@ -420,11 +430,17 @@ def _dict_items(fi, expr, what, depth=0):
                 for p_ in src.elts:                                         # dict([('k', v), ...])
                     items[p_.elts[0].value] = p_.elts[1]
                 continue
+            if isinstance(src, ast.Call) and call_name(src) == 'zip' and len(src.args) == 2 and not src.keywords:
+                # dict(zip(NAMES, values)): the names fold to constants, the values are a followable sequence
+                names = _fold(fi.mod.repo, fi, src.args[0])
+                vals = _seq_elements(fi, src.args[1], what)
+                if isinstance(names, (list, tuple)) and len(names) == len(vals) and all(isinstance(n_, str) for n_ in names):
+                    items.update(zip(names, vals))
+                    continue
+                raise AnalysisError('%s: %s cannot be followed' % (what, short(src)))
             if isinstance(src, (ast.Dict, ast.Call)) and src is not expr:
                 items.update(_dict_items(fi, src, what, depth + 1))
                 continue
-            if isinstance(src, ast.Call) and call_name(src) == 'zip' and len(src.args) == 2 and not src.keywords:
-                pass
             raise AnalysisError('%s: part %s of the dict is not a literal' % (what, l.text))
         if l.kind != 'literal' or l.values is None:
             raise AnalysisError('%s: part %s of the dict is not a literal' % (what, l.text))
